@@ -18,12 +18,17 @@
 #include <stdarg.h>
 
 #include "lltdPort.h"
+#include "v_checks_off.h"
 
 #ifdef VERIF_CBMC
 #define V_ASSUME(c) __CPROVER_assume(c)
 #define V_ASSERT(c, label) __CPROVER_assert((c), label)
 /* reachability witness: expected to FAIL (i.e. be reachable) */
+#ifdef V_NO_WITNESS
+#define V_WITNESS(label) do { } while (0)
+#else
 #define V_WITNESS(label) __CPROVER_assert(0, "WITNESS:" label)
+#endif
 void *malloc(size_t);
 void free(void *);
 void *memset(void *, int, size_t);
